@@ -72,9 +72,10 @@ type LoopContract struct {
 }
 
 type GhostDecl struct {
-	Name string
-	Sort string
-	Init Expr
+	Name    string
+	Sort    string
+	Init    Expr
+	Scratch bool // not subject to frame conditions; havoc'd by every non-pure call
 }
 
 type FuncContract struct {
@@ -120,6 +121,7 @@ type Lemma struct {
 	Induct   string
 	Requires []Clause
 	Ensures  []Clause
+	Triggers []Clause
 	Where    string
 }
 
@@ -427,7 +429,7 @@ func parseExpr(src string) (e Expr, err error) {
 var itemKw = map[string]bool{"func": true, "extern": true, "spec": true, "axiom": true, "lemma": true,
 	"property": true, "opaque": true, "ghost": true, "theory": true, "import": true}
 var clauseKw = map[string]bool{"requires": true, "ensures": true, "modifies": true, "loop": true, "call": true,
-	"nopanic": true, "trusted": true, "pure": true, "cut": true, "induction": true, "fresh": true}
+	"nopanic": true, "trusted": true, "pure": true, "cut": true, "induction": true, "fresh": true, "trigger": true}
 
 type rawLine struct {
 	kw    string
@@ -623,6 +625,10 @@ func parseSpecFile(path string) (*SpecFile, error) {
 				return nil, fmt.Errorf("%s: bad ghost", l.where)
 			}
 			g := GhostDecl{Name: strings.TrimSpace(l.text[:i])}
+			if strings.HasPrefix(g.Name, "scratch ") {
+				g.Scratch = true
+				g.Name = strings.TrimSpace(g.Name[8:])
+			}
 			rest := l.text[i+1:]
 			if j := strings.Index(rest, ":="); j >= 0 {
 				e, err := parseExpr(rest[j+2:])
@@ -638,6 +644,15 @@ func parseSpecFile(path string) (*SpecFile, error) {
 			} else {
 				sf.Ghosts = append(sf.Ghosts, g)
 			}
+		case "trigger":
+			if curLemma == nil {
+				return nil, fmt.Errorf("%s: trigger outside lemma", l.where)
+			}
+			cs, err := parseLocsets(l)
+			if err != nil {
+				return nil, err
+			}
+			curLemma.Triggers = append(curLemma.Triggers, cs...)
 		case "induction":
 			if curLemma == nil {
 				return nil, fmt.Errorf("%s: induction outside lemma", l.where)
